@@ -266,6 +266,8 @@ macro_rules! for_config {
             "8x1024" => $m!(BUintD8, BIntD8, u8, 1024),
             "16x512" => $m!(BUintD16, BIntD16, u16, 512),
             "32x256" => $m!(BUintD32, BIntD32, u32, 256),
+            "8x6" => $m!(BUintD8, BIntD8, u8, 6),
+            "16x8" => $m!(BUintD16, BIntD16, u16, 8),
             "8x7" => $m!(BUintD8, BIntD8, u8, 7),
             "8x9" => $m!(BUintD8, BIntD8, u8, 9),
             "8x12" => $m!(BUintD8, BIntD8, u8, 12),
